@@ -279,6 +279,7 @@ func spawn(fr *frame, pos token.Pos, fn value, args []value) {
 		g.name = c.Fn.String()
 	}
 	s.gs = append(s.gs, g)
+	race.fork(curG(fr), g)
 	i := fr.i
 	s.startGor(g, func() {
 		root := &frame{i: i, g: g}
@@ -293,6 +294,7 @@ func spawnEngine(fr *frame, name string, body func(g *gor)) {
 	s := sched
 	g := &gor{id: len(s.gs), wake: make(chan struct{}, 1), name: name}
 	s.gs = append(s.gs, g)
+	race.fork(curG(fr), g)
 	s.startGor(g, func() { body(g) })
 }
 
@@ -462,6 +464,7 @@ func chanSend(fr *frame, c *symchan, v value) {
 	if c == nil {
 		sched.block(g, "send on nil channel", func() bool { return false })
 	}
+	race.release(g, c)
 	if c.trySend(v) {
 		return
 	}
@@ -482,11 +485,13 @@ func chanRecv(fr *frame, c *symchan) (value, bool) {
 		sched.block(g, "receive from nil channel", func() bool { return false })
 	}
 	if v, ok, done := c.tryRecv(); done {
+		race.acquire(g, c)
 		return v, ok
 	}
 	w := &waiter{g: g}
 	c.recvq = append(c.recvq, w)
 	sched.block(g, "chan recv", func() bool { return w.done || c.closed }, c)
+	race.acquire(g, c)
 	if w.done {
 		return w.val, w.ok
 	}
@@ -505,6 +510,7 @@ func chanClose(fr *frame, c *symchan) {
 	if c.closed {
 		panic(targetPanicMsg("close of closed channel"))
 	}
+	race.release(curG(fr), c)
 	c.closed = true
 }
 
@@ -537,6 +543,13 @@ func doSelect(fr *frame, instr *ssa.Select) value {
 		sched.yield(g, "select", objs...)
 	}
 	result := func(chosen int, recv value, recvOk bool) value {
+		if chosen >= 0 && cases[chosen].c != nil {
+			if cases[chosen].send {
+				race.release(g, cases[chosen].c)
+			} else {
+				race.acquire(g, cases[chosen].c)
+			}
+		}
 		r := tuple{chosen, recvOk}
 		for i, st := range instr.States {
 			if st.Dir == types.RecvOnly {
